@@ -15,7 +15,9 @@ func TestWorld(t *testing.T) {
 		MaxSteps:     30_000_000,
 		MaxSimTime:   12 * time.Hour,
 		FreezeOneIn:  10,
-		FreezeMax:    3000,
+		// an agent that panics takes every tunnel through it down
+		PanicIsViolation: map[string]bool{"C16": true, "C17": true, "C07": true},
+		FreezeMax:        3000,
 	})
 }
 
